@@ -26,8 +26,9 @@ Init == \E c \in Combs :
           /\ n = 0
 
 AddRangeOp(f, t) ==
+  /\ (Bound = 0 \/ n < Bound)
   /\ Add(f, t)
-  /\ IF Bound = 0 THEN n' = n ELSE n < Bound /\ n' = n + 1
+  /\ n' = (IF Bound = 0 THEN n ELSE n + 1)
 
 Emit == PrintT(ToJson(<<"@@", Proj(prefix, ranges)>>))
 
